@@ -524,6 +524,63 @@ func C12(tier string) int {
 		wg.Wait()
 	}
 	atomic.StoreInt32(&rmNameVariant, 0)
+	// dedicated-database pass: substores mounted on their own databases (every non-empty subset of
+	// the N substores), the multistore kept open / restarted before every commit (eagerly, lazily)
+	dedJobs := []job{{2, 2, 6}, {2, 3, 4}}
+	if tier == "thorough" {
+		dedJobs = []job{{2, 2, 6}, {2, 3, 6}, {3, 2, 4}}
+	}
+	var dedHist int64
+	for _, j := range dedJobs {
+		cnt := int64(0)
+		for _, pr := range rmPrunings {
+			for mask := 1; mask < 1<<uint(j.n); mask++ {
+				for _, reopen := range []int{0, 1, 2} {
+					pr, mask, reopen := pr, mask, reopen
+					var batch [][][]int
+					flush := func(b [][][]int) {
+						wg.Add(1)
+						sem <- struct{}{}
+						go func() {
+							defer wg.Done()
+							defer func() { <-sem }()
+							for _, ch := range b {
+								h := rmHist{N: j.n, Choice: ch, Pruning: pr, Dedicated: mask, Reopen: reopen}
+								r, o, l := runC12Dedicated(h)
+								atomic.AddInt64(&opens, o)
+								atomic.AddInt64(&loads, l)
+								if r != nil {
+									mu.Lock()
+									run.Report(r.sig, r.what, h)
+									mu.Unlock()
+								}
+							}
+						}()
+					}
+					enumChoices(j.n, j.v, j.choices, func(ch [][]int) {
+						if time.Now().After(deadline) {
+							skipped++
+							return
+						}
+						cnt++
+						batch = append(batch, copyChoices(ch))
+						if len(batch) == 256 {
+							flush(batch)
+							batch = nil
+						}
+					})
+					if len(batch) > 0 {
+						flush(batch)
+					}
+				}
+			}
+		}
+		dedHist += cnt
+		desc = append(desc, fmt.Sprintf("dedicated databases: N=%d V=%d choices=%d: %d histories x %d pruning options x %d subsets of substores on their own database x {kept open, restarted before every commit, restarted lazily}", j.n, j.v, j.choices, cnt/int64(len(rmPrunings)*3*(1<<uint(j.n)-1)), len(rmPrunings), 1<<uint(j.n)-1))
+	}
+	wg.Wait()
+	hist += dedHist
+	run.Set("dedicated_database_histories", dedHist)
 	if skipped > 0 {
 		run.Set("exhaustive", false)
 		run.Set("cap_hit", fmt.Sprintf("internal deadline reached: %d of %d histories were not run", skipped, skipped+hist))
@@ -536,7 +593,7 @@ func C12(tier string) int {
 	run.Set("jobs", desc)
 	run.Set("reopens", opens)
 	run.Set("load_version_calls", loads)
-	run.Set("rule", "every write history (per version and per substore one of {nothing, k1=a, k1=b, delete k1, k2=a, k1=a+delete k2}) over N IAVL substores + 1 transient store, V versions, each of 7 pruning options, with store names s1,s2,... and again (N >= 2) with names that are proper prefixes of each other (acc, accounts); after every commit: reopen on a copy (LoadLatestVersion) and LoadVersion(u) for every u in 1..latest+1; before every commit: every retained version loaded on a CopyStore of the live multistore and read through CacheMultiStoreWithVersion while the writes are pending; at the end: failed loads on the live handle; one handle loaded at every retained older version and back at the latest; a second handle on the same database catching up after a commit of the first; a reopen with one more substore mounted for the first time followed by four commits, each checked by a fresh reopen; and a reopen under every other pruning option (eagerly, lazily, or with the options changed on the loaded store) followed by three commits, after which the versions committed since are loaded: those the new options retain must read as committed, the others must be gone. Histories are distinct by construction; non-trivial = the content of some store differs between two versions (a write or delete that takes effect)")
+	run.Set("rule", "every write history (per version and per substore one of {nothing, k1=a, k1=b, delete k1, k2=a, k1=a+delete k2}) over N IAVL substores + 1 transient store, V versions, each of 7 pruning options, with store names s1,s2,... and again (N >= 2) with names that are proper prefixes of each other (acc, accounts); after every commit: reopen on a copy (LoadLatestVersion) and LoadVersion(u) for every u in 1..latest+1; before every commit: every retained version loaded on a CopyStore of the live multistore and read through CacheMultiStoreWithVersion while the writes are pending; at the end: failed loads on the live handle; one handle loaded at every retained older version and back at the latest; a second handle on the same database catching up after a commit of the first; a reopen with one more substore mounted for the first time followed by four commits, each checked by a fresh reopen; a pass in which every non-empty subset of the substores is mounted on its own database (MountStoreWithDB with a database), kept open or restarted before every commit, all databases copied and reopened after every commit at the latest and at every version 1..latest+1; and a reopen under every other pruning option (eagerly, lazily, or with the options changed on the loaded store) followed by three commits, after which the versions committed since are loaded: those the new options retain must read as committed, the others must be gone. Histories are distinct by construction; non-trivial = the content of some store differs between two versions (a write or delete that takes effect)")
 	run.Sample(rmHist{N: 2, Choice: [][]int{{1, 4}, {3, 0}, {2, 5}}, Pruning: [2]int64{0, 2}}.String())
 	run.Assume("MemDB stands in for the on-disk database", "retention rule: commit w releases version w-1-keepRecent unless it is a multiple of keepEvery (store/iavl documentation)", "LoadVersion(0) is not judged (0 is not a committed version)")
 	return run.Finish()
